@@ -21,6 +21,7 @@ import (
 	sdk "github.com/cosmos/cosmos-sdk/types"
 
 	ratelimittypes "github.com/cosmos/ibc-go/v11/modules/apps/rate-limiting/types"
+	transfertypes "github.com/cosmos/ibc-go/v11/modules/apps/transfer/types"
 	clienttypes "github.com/cosmos/ibc-go/v11/modules/core/02-client/types"
 	clientv2types "github.com/cosmos/ibc-go/v11/modules/core/02-client/v2/types"
 	channeltypes "github.com/cosmos/ibc-go/v11/modules/core/04-channel/types"
@@ -118,6 +119,7 @@ func (h *gHist) gRoundTrip(name string) *gResult {
 	valErrs := gen2.gValidate()
 	panics := gImport(C, gen2)
 	dumpC := gDump(C)
+	h.copyEscrow()
 	h.w.coord.CommitBlock(C)
 
 	typedA := gTyped(dumpA[ibcexported.StoreKey])
@@ -172,6 +174,9 @@ func (h *gHist) gRoundTrip(name string) *gResult {
 		}
 		report(key, fmt.Sprintf("store %s key %s %s after export/import (class %s)", d.store, gKeyStr(d.key), d.kind, cls),
 			lib.M{"store": d.store, "key": gKeyStr(d.key), "kind": d.kind, "before": d.a, "after": d.c})
+	}
+	for _, st := range gStores {
+		gLog("   store %-24s keys on A: %d (fresh chain: %d)", st, len(dumpA[st]), len(fresh[st]))
 	}
 	gLog("[%s] ops=%d keysA=%d diffs=%d panics=%v valErrs=%v reEqual=%v", name, len(h.ops), len(dumpA["ibc"]), len(diffs), panics, valErrs, reEqual)
 	for _, l := range lost {
@@ -228,6 +233,26 @@ func gCounterpartyIDs(ch *ibctesting.TestChain, ibcStore map[string][]byte) []li
 		return out[i]["cp"].(string) < out[j]["cp"].(string)
 	})
 	return out
+}
+
+// copyEscrow re-creates on the importing chain the bank balances of A's ICS-20 escrow accounts.
+// Balances are x/bank genesis, not IBC genesis: a chain restarted from a complete export has them,
+// while this harness imports the IBC modules only. Nothing but the escrow accounts is touched, and
+// the bank store is not among the compared stores.
+func (h *gHist) copyEscrow() {
+	A, C := h.w.A, h.w.C
+	for _, c := range h.chans {
+		if c.kind != "transfer" {
+			continue
+		}
+		addr := transfertypes.GetEscrowAddress(c.epA.ChannelConfig.PortID, c.epA.ChannelID)
+		coins := gApp(A).BankKeeper.GetAllBalances(A.GetContext(), addr)
+		if coins.IsZero() {
+			continue
+		}
+		must(gApp(C).BankKeeper.MintCoins(C.GetContext(), transfertypes.ModuleName, coins))
+		must(gApp(C).BankKeeper.SendCoinsFromModuleToAccount(C.GetContext(), transfertypes.ModuleName, addr, coins))
+	}
 }
 
 func gSortedVals(m map[string]string) []string {
